@@ -1045,6 +1045,9 @@ func scalarTrial(r *vlib.Run, trial int, rng *rand.Rand) {
 	r.Eval(1)
 	r.Count("scalar_kind_"+kind, 1)
 	desc := fmt.Sprintf("%T(%#v)", x, x)
+	if kind == "unsupported" {
+		desc = fmt.Sprintf("%T", x) // values may print addresses; the type is the case
+	}
 	wit := map[string]interface{}{"kind": kind, "go_value": desc}
 	tv, err, pan := callFromScalar(x)
 	if pan != nil {
